@@ -228,6 +228,10 @@ def check(run, replay):
         gen.append(("gen-hostile", 0, G.gen_hostile_pattern(rng)))
     for _ in range(n_simple):
         gen.append(("gen-simple", 1, G.gen_simple_pattern(rng)))
+    # every operator key of the compiler's tokTypes table as a one-word simpleMatch pattern
+    op_keys = [k for k, _ in tt["tokTypes"] if not (k[0].isalpha() or k[0] == "_")]
+    for k in op_keys:
+        gen.append(("gen-simple", 1, k))
     for src, kind, p in gen:
         hv = "%varid%" in p
         raw = G.c_escape(p.encode())
@@ -294,8 +298,24 @@ def check(run, replay):
         run.violation("upd:" + vlib.enc_case(c), "update_property_info model differs on %r: model %s impl %s" % (c[0], vlib.show(m), vlib.show(i)),
                       {"broken": "correspondence update_property_info", "case": vlib.show(c), "model": vlib.show(m), "impl": vlib.show(i)}, found_input=False)
     deftype = {}
-    for c in ucases:
-        pass
+    # the property itself on the implementation: the type update_property_info gives an operator
+    # must be one the compiler tabulates, else the compiled literal cannot match that token
+    table = {k.encode(): [E[t] for t in v] for k, v in tt["tokTypes"]}
+    for k in op_keys:
+        kb = k.encode()
+        for cpp in ("0", "1"):
+            r = vlib.dec_line(vlib.run_lines([vh, "upd"], [vlib.enc_case([kb, "0", "0", cpp])])[1][0])
+            if not r or not r[0].isdigit():
+                continue
+            ty = int(r[0])
+            run.count("update_property_info", None, bucket="table-key-" + ("ok" if ty in table[kb] else "NOT-tabulated"))
+            if ty not in table[kb]:
+                sc = vlib.dec_line(vlib.run_lines([vh, "scan"], [vlib.enc_case(["1", "", "", kb, kb, "0", str(ty)])])[1][0])
+                run.violation("tabletype:" + k, "token %r gets tokType %s from update_property_info, the compiler's tokTypes table demands %s: simpleMatch(tok, %r) interpreted/compiled = %s"
+                              % (kb, enum[ty], [enum[t] for t in table[kb]], k, vlib.show(sc)),
+                              {"pattern": k, "token": [k, 0, enum[ty]], "table": [enum[t] for t in table[kb]], "interpreted_compiled": vlib.show(sc),
+                               "how": "echo '%s' | build/harness/vh_c33 scan" % vlib.enc_case(["1", "", "", kb, kb, "0", str(ty)])})
+                break
 
     def default_type(s):
         if s not in deftype:
@@ -423,7 +443,8 @@ def check(run, replay):
         if stream == "flip":
             opt_tail = has_opt_tail(f[3])
             cls["flip:" + ("token-not-tk_inv" if badtok else "opt-tail" if opt_tail else "other")] += 1
-            if not badtok and not opt_tail:
+            if not badtok and not opt_tail and cls["reported-flipdiff"] < 3:
+                cls["reported-flipdiff"] += 1
                 key = "flipdiff:" + hashlib.sha1(vlib.enc_case(f).encode()).hexdigest()[:12]
                 run.violation(key, "compiled != interpreted on %r with tokens satisfying tk_inv" % (f[3],),
                               {"pattern": vlib.show(f[3]), "tokens": vlib.show(window), "interpreted": ii, "compiled": ic, "case_line": vlib.enc_case(f)})
@@ -448,6 +469,8 @@ def check(run, replay):
             report_opt_tail(run, reported, f, window, ii, ic, pos, meta_)
         else:
             cls["real:unexplained"] += 1
+            if cls["real:unexplained"] > 3:
+                continue
             key = "diff:" + hashlib.sha1(vlib.enc_case(f).encode()).hexdigest()[:12]
             run.violation(key, "compiled != interpreted on %r over real tokens satisfying tk_inv" % (f[3],),
                           {"pattern": vlib.show(f[3]), "tokens": vlib.show(window), "interpreted": ii, "compiled": ic, "case_line": vlib.enc_case(f)})
